@@ -16,7 +16,8 @@ open SteelVerif.C16
 #print axioms no_deadlock_code
 #print axioms gate_keeps_guard
 #print axioms not_blocking_paths_publish
-#print axioms known_unpublished_tight
+#print axioms open_k16b_tight
+#print axioms blocking_paths_publish_full
 #print axioms round_rank_decreases
 #print axioms stop_round_terminates
 #print axioms roundRank_begin
@@ -48,3 +49,5 @@ open SteelVerif.C16
 #print axioms LockOrder.no_deadlock_stop_first
 #print axioms LockOrder.lock_first_deadlocks
 #print axioms LockOrder.step_inv
+#print axioms R.prim_holds_no_lock
+#print axioms R.blocked_in_prim_unblocks_stopper
